@@ -212,6 +212,18 @@ JudgeRawLimit(c) == {
   }
 
 (***************************************************************************)
+(* C08 across object life times: labware come and go on one worklist; the  *)
+(* position written for a well is that of the labware in hand.             *)
+(***************************************************************************)
+JudgePosLife(c) == {
+    Cl("C08.lifetimes", TRUE,
+       /\ c.out = "ok" /\ Len(c.seen) = c.n
+       /\ \A i \in 1..Len(c.seen) :
+             LET e == c.seen[i]  g == [rows |-> e.rows, cols |-> e.cols, vrows |-> e.vrows] IN
+             e.pos = Pos(c.dev, g, <<e.well[1], e.well[2]>>))
+  }
+
+(***************************************************************************)
 JudgeCall(c) ==
   CASE c.fn = "geom" -> JudgeGeom(c)
     [] c.fn = "tw"   -> JudgeTW(c)
@@ -227,6 +239,7 @@ JudgeCall(c) ==
     [] c.fn = "dilplan" -> JudgeDilPlan(c)
     [] c.fn = "combine" -> JudgeCombine(c)
     [] c.fn = "rawlimit" -> JudgeRawLimit(c)
+    [] c.fn = "poslife" -> JudgePosLife(c)
     [] OTHER -> {Cl("machinery.unknown_fn", TRUE, FALSE)}
 
 Init == ci = 1 /\ InitRegisters
